@@ -109,6 +109,36 @@ let f _id vs =
     end
     else if obs = "20" then "PROP panic on token " ^ hex_of_string (as_bytes tok) ^ " model=" ^ model
     else "DIFF token=" ^ hex_of_string (as_bytes tok) ^ " model=" ^ model ^ " impl=" ^ obs
+  | I "4" :: api :: ps :: ty :: rows :: tok :: bad :: obsf :: obsc :: [] ->
+    (* sqlite, one request repeated with a fault on the row whose key is [bad] *)
+    let api = as_int api in
+    let psz = z_of_int (as_int ps) in
+    let rows = rows_of rows in
+    let tokc = as_cbytes tok and badc = as_cbytes bad and tyc = as_cbytes ty in
+    let stepf = match api with
+      | 0 -> read_sql_f rows (Some badc) psz
+      | 1 -> changes_sql_f rows (Some badc) psz tyc
+      | 2 -> stores_sql_f rows (Some badc) psz
+      | _ -> models_sql_f rows (Some badc) psz in
+    let mf = show_outcome (stepf tokc) and mc = show_outcome (step api 1 rows psz tyc tokc) in
+    let obf = show_obs obsf and oc = show_obs obsc in
+    let is_err s = String.length s > 0 && s.[0] <> '0' && s <> "20" in
+    (* property predicate, on the two observations alone: the request fails, or answers as without the fault *)
+    if not (is_err obf || obf = oc) then begin
+      if api = 1 && obf = mf && changes_sql_fault_hit rows badc psz tokc then
+        "KNOWN sqlite_changes_iteration_error_swallowed fault-free=" ^ oc ^ " with-fault=" ^ obf
+      else "PROP storage fault mid-iteration answered without error by a different page: fault-free=" ^ oc ^ " with-fault=" ^ obf ^ " model=" ^ mf
+    end
+    else if oc <> mc then "DIFF fault-free answer model=" ^ mc ^ " impl=" ^ oc
+    else if obf = mf then "OK"
+    else begin
+      (* an engine that materialises the ORDER BY before LIMIT may also fail on a faulty row beyond the page *)
+      let from = if api = 0 then storage_from tokc else Some tokc in
+      let le = if api = 3 then desc else ble in
+      match from with
+      | Some f when api <> 1 && is_err obf && keyset_fault_in_range le rows badc f -> "OK"
+      | _ -> "DIFF answer under fault model=" ^ mf ^ " impl=" ^ obf
+    end
   | I "3" :: has_tk :: obj :: user :: rejected :: [] ->
     let ok = read_tk_ok (as_bool has_tk) (as_cbytes obj) (as_cbytes user) in
     if ok = not (as_bool rejected) then "OK"
